@@ -88,7 +88,11 @@ def r_load_store(cg, rep):
                 p = FP[cat]
                 want_w = 128 if p == 80 else p
                 ok = w == want_w and val == ('fval', p, ('r', 'rhs', 'f%d' % p))
-                return ok, 'stores %r (%d bits), expected the %d-bit value of the right operand' % (val, w, p)
+                if not ok:
+                    return ok, 'stores %r (%d bits), expected the %d-bit value of the right operand' % (val, w, p)
+                if p == 80:
+                    return s.st == [('r', 'rhs', 'f80')], 'after the store the x87 stack holds %r; the assignment expression must leave exactly the stored value there' % (s.st,)
+                return True, ''
             sz = INTSZ[cat] * 8
             _, V = child_value('rhs', cat)
             ok = w == sz and canon(val) == canon(lo(sz, V))
